@@ -139,7 +139,7 @@ def observed(obj):
     import osyris
 
     if isinstance(obj, osyris.Vector):
-        return [np.asarray(c.values) for c in obj._xyz.values()]
+        return [np.asarray(c.values) for c in core.vcomps(obj)]
     return [np.asarray(obj.values)]
 
 
